@@ -81,3 +81,22 @@ Theorem C05_last_prev_enumerates : forall t, wf t = true -> has_empty_leaf t = f
   Ok (map (fun e => show (Some e)) (rev (flatten t)) ++ [(None, None)]).
 Proof. exact last_prev_enumerates. Qed.
 Print Assumptions C05_last_prev_enumerates.
+
+(** ---- the hypothesis of the refinement theorems above, "a committed tree has no emptied leaf", is no longer only monitored:
+    it is a theorem about Tree.v, the model of what Tx.Commit does to a bucket's tree (node.rebalance + node.spill), which is
+    compared with the real commit on every generated case (tree before, visit order, tree after) ---- *)
+From Bbolt Require Node Tree TreeProofs.
+Module CommittedTrees.
+Import Node Tree TreeProofs.
+
+(** if every emptied non-root node is materialised, marked unbalanced (node.del does that) and visited by Bucket.rebalance (its map
+    iteration visits every materialised node), then after the commit - for every visit order, page size and fill percentage - no vertex
+    other than the root is empty and every branch has as many children as elements; so read transactions, which only ever see
+    committed trees, are within the domain of the refinement theorems *)
+Theorem C05_no_emptied_page_survives_a_commit : forall ps fill fuel t order t' evs d,
+  wf d t -> (d < fuel)%nat -> closed false t -> NoDup (ids t) -> good order t ->
+  commit_tree ps fill fuel t order = Ok (t', evs) ->
+  exists d', wf d' t' /\ forall f, (d' < f)%nat -> no_empty f true t' = true.
+Proof. exact commit_tree_no_empty_b. Qed.
+Print Assumptions C05_no_emptied_page_survives_a_commit.
+End CommittedTrees.
